@@ -26,10 +26,16 @@ def rule_resume(ctx, repo):
     ctx.check(ok, "C14.resume", "DAE.__init__/sentinel", "t = -1 before any dynamic initialisation",
               "the not-yet-initialised sentinel DAE.t = -1 changed", d.W())
     r = F.method(repo, "TDS", "run", TDS)
-    t = [tn for tn in r.g.nodes() if r.g.data(tn)["kind"] == "test" and Q.match("system.dae.t < 0", r.g.data(tn)["ast"].test)]
+    # decided on the truth table of the enclosing conditions (once-bound Boolean locals replaced by their definition): init() can be
+    # reached only with `t < 0`, init_resume() only with `not t < 0`
     ini = r.calls("self.init")
     res = r.calls("self.init_resume")
-    ok = bool(t and ini and res) and all(r.g.guarded_by(n, t[0], "true") for n in ini) and all(r.g.guarded_by(n, t[0], "false") for n in res)
+    atom = "self.system.dae.t < 0"      # resolved form (the substituted conditions are copies without an owner function)
+    ok = bool(ini and res)
+    for n in ini:
+        ok = ok and Q.sat_atom_values(r.fn, r.g.data(n)["ast"], atom) == {True}
+    for n in res:
+        ok = ok and Q.sat_atom_values(r.fn, r.g.data(n)["ast"], atom) == {False}
     ctx.check(ok, "C14.resume", "TDS.run/dispatch", "init() iff t < 0, else init_resume()",
               "a second run() call no longer resumes (or a first one no longer initialises)", r.W())
     # only sanctioned writers of a non-negative time: TDS.reset / TDS.init
